@@ -23,7 +23,7 @@ from .common import (
 
 PID = "C04"
 LEVEL = "fault_enumeration"
-BUDGET = {"quick": 25000, "thorough": 400000}
+BUDGET = {"quick": 100000, "thorough": 1500000}
 RULE = (
     "each run samples a scenario and enumerates its crash points, one simulated execution each: "
     "(tools/aggregations) exhaustion, close@j for j=1..len+1 (handles: from 0), consumer athrow@j, "
